@@ -25,7 +25,7 @@ ASSUMPTIONS = ["control-arm rule: a difference is reported only if the fault-fre
                "the normalising prefix (assign every field, re-seed) makes both worlds equal in "
                "everything the API lets a user control"]
 REQUIRED_NONZERO = {"*": ["faults_fired.cb_raise", "faults_fired.force_unsat", "sites_total",
-                          "later_ops_compared"]}
+                          "later_ops_compared", "double_faults"]}
 
 
 def budget(tier):
@@ -104,6 +104,7 @@ def generate(seed, tier):
     return {"prop": ID, "seed": seed, "prog": prog, "ops": ops,
             "norm_seed": st.fault.randint(0, 1 << 30),
             "max_sites": 40 if tier == "quick" else 200,
+            "double": 2 if tier == "quick" else 12,
             "site_seed": st.fault.randint(0, 1 << 30)}
 
 
@@ -146,8 +147,12 @@ def run_world(rec, tagn, fault=None, skip=None, record_sites=False):
     k_fault = None
     if fault and fault[0] == "site":
         w.fault_plan = {fault[1]: "cb_raise"}
+    if fault and fault[0] == "sites":
+        w.fault_plan = {n_: "cb_raise" for n_ in fault[1]}
+    skips = skip if isinstance(skip, (set, frozenset, list, tuple)) else ([skip] if skip is not None else [])
+    posts = []
     for oi, op in enumerate(rec["ops"]):
-        if skip is not None and oi == skip:
+        if oi in skips:
             k_fault = oi
             _normalise(w, nrng, rec)
             continue
@@ -175,17 +180,18 @@ def run_world(rec, tagn, fault=None, skip=None, record_sites=False):
         if op["op"] in ("randomize", "rw") and out["st"] in ("ok", "solvefail") and "p" in op:
             entry = entry + (w.tree(op["p"]),)
         faulted_now = (out["st"] == "fault") or (unsat_here and post is None)
-        if faulted_now and post is None:
+        if faulted_now and (post is None or (fault and fault[0] == "sites")):
             k_fault = oi
             pobj = w.parties[op["p"]].obj if "p" in op and op["p"] < len(w.parties) else None
             post = {"op": oi, "outcome": out, "idle": randworld.global_state(),
                     "residue": randworld.model_residue(pobj) if pobj is not None else [],
                     "unsat": unsat_here}
+            posts.append(post)
             _normalise(w, nrng, rec)
             trace.append((oi, "FAULTED"))
             continue
         trace.append(entry)
-    return {"trace": trace, "sites": list(w.sites_seen), "op_sites": op_sites, "post": post,
+    return {"trace": trace, "sites": list(w.sites_seen), "op_sites": op_sites, "post": post, "posts": posts,
             "fired": dict(w.faults_fired), "k": k_fault, "idle_end": randworld.global_state(),
             "sim_ms": int(w.clock.elapsed * 1000)}
 
@@ -291,6 +297,47 @@ def execute(rec):
             detail["diff"] = d or {"len_treated": len(lt), "len_control": len(lc)}
             report({"inv": "C16.later_behaviour", "detail": detail,
                     "cls": "C16.later_behaviour/%s/%s" % (fk, skind), "fault": [kind, n, skind]})
+    # double faults (thorough tier): a second fault during the use that follows the first one
+    if rec.get("double") and not viol:
+        drng = _r.Random(rec["site_seed"] ^ 0x5a5a)
+        firsts = [f for f in plan if f[0] == "site"]
+        drng.shuffle(firsts)
+        for fi, f in enumerate(firsts[:rec["double"]]):
+            t1 = run_world(rec, "d%da" % fi, fault=("site", f[1]), record_sites=True)
+            if t1["post"] is None:
+                continue
+            later_sites = [n_ for (n_, k_) in t1["sites"] if n_ > f[1]]
+            if not later_sites:
+                continue
+            n2 = drng.choice(later_sites)
+            t2 = run_world(rec, "d%db" % fi, fault=("sites", [f[1], n2]))
+            stats["fault_runs"] += 2
+            if len(t2["posts"]) < 2:
+                continue
+            stats["double_faults"] = stats.get("double_faults", 0) + 1
+            stats["faults_fired"]["cb_raise"] = stats["faults_fired"].get("cb_raise", 0) + 2
+            ks = [p_["op"] for p_ in t2["posts"]]
+            bad = None
+            for p_ in t2["posts"]:
+                if any(p_["idle"].values()):
+                    bad = ("C16.global_not_idle", {"idle": p_["idle"]})
+                elif p_["residue"]:
+                    bad = ("C16.model_residue", {"residue": p_["residue"][:8]})
+            if bad is None:
+                cw = run_world(rec, "d%dc" % fi, skip=set(ks))
+                lt = [t for t in later(t2["trace"], ks[0]) if t[1] != "FAULTED"]
+                lc = [t for t in later(cw["trace"], ks[0])]
+                stats["later_ops_compared"] += len(lc)
+                if lt != lc and not any(t[2] == "exc" for t in lc if len(t) > 2):
+                    d = None
+                    for a, b in zip(lt, lc):
+                        if a != b:
+                            d = {"treated": a, "control": b}
+                            break
+                    bad = ("C16.later_behaviour", {"diff": d})
+            if bad is not None:
+                report({"inv": bad[0], "cls": bad[0] + "/double_fault",
+                        "detail": dict(bad[1], sites=[f[1], n2], ops=ks), "fault": ["sites", [f[1], n2]]})
     return {"viol": viol, "stats": stats,
             "digest": kernel.digest([base["trace"], len(sites)]),
             "sigs": sorted(sigs), "evals": stats["fault_runs"], "sim_ms": sim_ms}
